@@ -170,7 +170,7 @@ pub fn snap_event(ev: &StateMachineEvent) -> EvSnap {
                     }
                 })
                 .collect()),
-            Err(e) => Err(format!("{:?}", e)),
+            Err(e) => Err(format!("{:?}", e).lines().next().unwrap_or("").chars().take(200).collect()),
         }),
         StateMachineEvent::InstallProgressChange(p) => EvSnap::Progress(p.progress.to_bits()),
         StateMachineEvent::OmahaServerResponse(r) => EvSnap::Response(Box::new(r.clone())),
